@@ -191,9 +191,13 @@ Fixpoint ref_run (fuel : nat) (s : astate) (ops : list term) (acc : list (option
       match ops with
       | [] => (s, acc)
       | o :: r =>
-          if op_is o "call" then
+          if op_is o "call" || op_is o "errcall" then
+            (* errcall: the body ends in an error; the frame vanishes all the same *)
             let '(s1, acc1) := ref_run f {| g := g s; locals := [] :: locals s |} (term_list (term_nth o 1)) acc in
             ref_run f {| g := g s1; locals := tl (locals s1) |} r acc1
+          else if op_is o "badcall" then
+            (* a call with the wrong number of arguments: the body never runs, nothing changes *)
+            ref_run f s r acc
           else
             let '(s1, out) := ref_op' s o in
             ref_run f s1 r (acc ++ [out])
